@@ -518,6 +518,14 @@ pub trait RaftRoleState: Send + Sync + 'static {
 
         // My term might be updated, has to fetch it again
         let my_term = self.current_term();
+        // The snapshot was taken before the term update above; answer with the term this node
+        // holds now, otherwise the first reply to a new leader carries the old term and the
+        // leader discards it as stale.
+        let refreshed_snapshot = StateSnapshot {
+            current_term: my_term,
+            ..state_snapshot.clone()
+        };
+        let state_snapshot = &refreshed_snapshot;
 
         // Handle replication request
         match ctx
